@@ -221,8 +221,55 @@ Definition i2c_env (D : N) (P : list bool) (allow_w allow_r legal_scl : bool) (s
 Definition i2c_alphabet (reqs : list (bool * bool * bool * bool)) (D : N) : list N :=
   flat_map (fun r => match r with (a, b, c, d) =>
     flat_map (fun ack => flat_map (fun scl => map (fun sda => i2c_mk_in a b c d ack D scl sda) [false; true])
-      [false; true]) [false; true] end) reqs.
+      [false; true]) (if d then [false; true] else [false]) end) reqs.   (* ack_i only matters with a read request *)
 
 Definition i2c_reqs : list (bool * bool * bool * bool) :=
   [(false,false,false,false); (true,false,false,false); (false,true,false,false); (false,false,true,false);
    (false,false,false,true); (true,true,true,true); (false,true,true,true); (false,false,true,true)].
+
+(* ------------------------------------------------------------------------------------------ *)
+(* Ghost record of the operation in progress / last completed, used to state what a write and a
+   read put on / take from the bus.  It only observes the model:
+     g_rises    the initiator's SDA output at each step in which its SCL output goes low -> released
+                (one entry per SCL pulse it generates), since the request was accepted;
+     g_samples  the synchronised SDA input in each step in which the FSM samples it
+                (into ack_o for a write, into r_shreg for a read);
+     g_data / g_ack   data_i / ack_i presented with the accepted request. *)
+Inductive op_kind := OpNone | OpStart | OpStop | OpWrite | OpRead.
+Record ghost := { g_op : op_kind; g_data : list bool; g_ack : bool; g_rises : list bool; g_samples : list bool }.
+Definition ghost0 : ghost := {| g_op := OpNone; g_data := []; g_ack := false; g_rises := []; g_samples := [] |}.
+
+Definition accepted (st : i2c_state) (i : i2c_in) : op_kind :=
+  match fsm st with
+  | Idle => if in_start i then OpStart else if in_stop i then OpStop else if in_write i then OpWrite
+            else if in_read i then OpRead else OpNone
+  | _ => OpNone
+  end.
+
+Section Ghost.
+  Variable q : N.
+  Variable stretch : bool.
+
+  (* the FSM takes a sample of SDA in this step *)
+  Definition samples_now (st : i2c_state) : bool :=
+    match fsm st with
+    | Ph GWAck SclH | Ph GRData SclH => sclh_done stretch st
+    | _ => false
+    end.
+
+  Definition ghost_next (st : i2c_state) (i : i2c_in) (g : ghost) : ghost :=
+    match accepted st i with
+    | OpNone =>
+        let st' := i2c_next q stretch st i in
+        {| g_op := g_op g; g_data := g_data g; g_ack := g_ack g;
+           g_rises := g_rises g ++ (if negb (scl_o st) && scl_o st' then [sda_o st] else []);
+           g_samples := g_samples g ++ (if samples_now st then [sda_i st] else []) |}
+    | k => {| g_op := k; g_data := msb8 (in_data i); g_ack := in_ack i; g_rises := []; g_samples := [] |}
+    end.
+
+  Fixpoint grun (st : i2c_state) (g : ghost) (tr : list N) : i2c_state * ghost :=
+    match tr with
+    | [] => (st, g)
+    | i :: t => let d := i2c_decode i in grun (i2c_next q stretch st d) (ghost_next st d g) t
+    end.
+End Ghost.
